@@ -1,14 +1,43 @@
 import Adsb.Print
 import Adsb.Icao
+import Adsb.Velocity
 /-! Line-protocol driver: one operation per input line, one canonical line of output. -/
 open Adsb
 
 def parseBuf (h : String) : Option Buf := (parseHexBytes h.toList).map (fun b => { bytes := b })
 
+def pi64 : Float := 3.14159265358979323846264338327950288
+
+/-- `(heading as f32, ground speed)` from the exact components, as the Rust code computes them -/
+def trackSpeed (v : Velocity) : Float × Float :=
+  let ew := Float.ofInt v.vEw
+  let ns := Float.ofInt v.vNs
+  let h := Float.atan2 ew ns * (360.0 / (2.0 * pi64))
+  let h := if h < 0.0 then h + 360.0 else h
+  (h.toFloat32.toFloat, Float.sqrt (ew * ew + ns * ns))
+
+def frameME : DF → Option ME
+  | .adsb _ _ me _ => some me
+  | .tisb _ _ me _ => some me
+  | _ => none
+
+def opVelocity (B : Buf) : String :=
+  match decode B with
+  | .ok f => match frameME f.df with
+    | some (.velocity v) => match v.calc with
+      | some r => let (h, g) := trackSpeed r; s!"VEL some hdg={h} gs={g} vr={r.vrate}"
+      | none => "VEL none"
+    | _ => "VEL n/a"
+  | .err e => s!"ERR {e.name}"
+  | .panic p => s!"PANIC {p}"
+
 def runOp (line : String) : String :=
   match line.trimAscii.toString.splitOn " " |>.filter (· ≠ "") with
   | ["F", h] => match parseBuf h with
       | some B => showRes Frame.show (decode B)
+      | none => "BADOP"
+  | ["V", h] => match parseBuf h with
+      | some B => opVelocity B
       | none => "BADOP"
   | ["I", h] => match parseBuf h with
       | some ⟨[x, y, z]⟩ =>
